@@ -145,6 +145,61 @@ def run_case(case):
             cov_, mean_ = captured[0]
             r["normalised"] = flat(cov_) + (flat(mean_) if mean_ is not None else [])
             r["normalised_has_mean"] = mean_ is not None
+            # --- arguments of the kernels of the ladder-moment observables
+            r["variance"] = [float(st.variance_photon_number())]
+            cap = {}
+
+            class SpyND:
+                def __init__(self, complex_covariance, connector):
+                    cap["density"] = ("nondisplaced", None, np.array(complex_covariance))
+
+            class SpyD:
+                def __init__(self, complex_displacement, complex_covariance, connector):
+                    cap["density"] = ("displaced", np.array(complex_displacement), np.array(complex_covariance))
+
+            old_c = (gstate_module.NondisplacedDensityMatrixCalculation,
+                     gstate_module.DisplacedDensityMatrixCalculation)
+            gstate_module.NondisplacedDensityMatrixCalculation = SpyND
+            gstate_module.DisplacedDensityMatrixCalculation = SpyD
+            try:
+                st._get_density_matrix_calculation()
+            finally:
+                (gstate_module.NondisplacedDensityMatrixCalculation,
+                 gstate_module.DisplacedDensityMatrixCalculation) = old_c
+            kind, dd, dc = cap["density"]
+            r["density_kind"] = kind
+            r["density_args"] = (cflat(dd) if dd is not None else []) + cflat(dc)
+
+            class Stop(Exception):
+                pass
+
+            def spy_w(arg, connector):
+                cap["williamson"] = np.array(arg)
+                raise Stop()
+
+            old_w = gstate_module.williamson
+            gstate_module.williamson = spy_w
+            try:
+                st.purify()
+            except Stop:
+                pass
+            finally:
+                gstate_module.williamson = old_w
+            r["purify_arg"] = flat(cap["williamson"])
+            # phase shifter: the matrix whose determinant / linear system is taken
+            angles = [2 * np.arctan(fr(t_)) for t_ in case["ps_t"]]
+            old_det = np.linalg.det
+
+            def spy_det(a):
+                cap.setdefault("ps_M", np.array(a))
+                return old_det(a)
+
+            np.linalg.det = spy_det
+            try:
+                st.get_phaseshifter_expectation_value(angles)
+            finally:
+                np.linalg.det = old_det
+            r["ps_M"] = cflat(cap["ps_M"])
         if case.get("search", False):
             o = {}
             sh = np.sqrt(hbar)
@@ -228,6 +283,9 @@ def run_case(case):
                 k["parity"] = guarded(lambda: float(st2.get_parity_operator_expectation_value()))
                 k["mean_photon_from_fock"] = float(np.sum(pr * np.sum(basis, axis=1)))
                 k["mean_photon"] = float(st2.mean_photon_number())
+                tot = np.sum(basis, axis=1)
+                k["variance_from_fock"] = float(np.sum(pr * tot ** 2) - np.sum(pr * tot) ** 2)
+                k["variance"] = float(st2.variance_photon_number())
             r["consistency"] = k
         res["per_hbar"].append(r)
     return res
